@@ -427,6 +427,24 @@ struct Scenario {
       if (!dbus_connection_get_object_path_data(conn, join_path(kv.first).c_str(), &data)) core::harness_error("get_object_path_data oom");
       if (data != kv.second) fail("oracle:C20:user-data", "the data registered at %s is not what the connection returns for that path", join_path(kv.first).c_str());
     }
+    // ... and nothing for a path where nothing is registered: beside, above and below the registrations (also
+    // below fallbacks - the data belongs to the exact path, it is not inherited)
+    std::set<Path> others;
+    for (auto &kv : model) {
+      Path q = kv.first;
+      q.push_back("zz9"); others.insert(q);                                   // below
+      q.push_back("deeper"); others.insert(q);
+      q = kv.first;
+      if (!q.empty()) { q.pop_back(); others.insert(q); q.push_back("zz9"); others.insert(q); }   // parent, sibling
+    }
+    others.insert(Path());
+    for (auto &q : others) {
+      if (model.count(q)) continue;
+      void *data = (void *)this;
+      if (!dbus_connection_get_object_path_data(conn, join_path(q).c_str(), &data)) core::harness_error("get_object_path_data oom");
+      if (data != nullptr) fail("oracle:C20:user-data", "nothing is registered at %s, yet the connection returns user data for that path", join_path(q).c_str());
+      counters["probe:user_data_of_unregistered_path"]++;
+    }
     counters["tree_comparisons"]++;
   }
 
